@@ -440,3 +440,18 @@ MUTANTS.append({'prop': 'C14', 'name': 'modifier-missing', 'kind': 'fire', 'expe
                 'old': "        if d_species_id not in reactants_list and d_species_id not in products_list:\n            modifier = reaction.createModifier()\n            modifier.setSpecies(d_species_id)\n",
                 'new': ""})
 M('C14', 'silent-massaction-spacing', SB, '                ratestring += f" * {species_id}^{stoichiometry}"', '                ratestring += f"*({species_id}^{stoichiometry})"', 'silent')
+
+# ------------------------------------------------------------------ C12
+M('C12', 'revert-rule-frequency-str', SB, "'' + str(rule_frequency) + '</BioscrapeRule>", "'' + rule_frequency + '</BioscrapeRule>", 'fire', 'R12.2-str-wrapped/add_rule')
+M('C12', 'writer-key-renamed', SB, '        propensity_annotation_dict["K"] = propensity_params[\'K\']\n', '        propensity_annotation_dict["Kd"] = propensity_params[\'K\']\n', 'fire', 'R12.1-propensity-keys')
+M('C12', 'reader-delay-family-missing', SB, "                    if k == 'theta':\n                        delay_params[k] = v \n", "", 'fire', 'R12.1-delay-keys/theta')
+M('C12', 'reader-delay-products-as-reactants', SB, "                    if k == 'products':\n                        delay_products = v.split(',')", "                    if k == 'products':\n                        delay_reactants = v.split(',')", 'fire', 'R12.1-delay-keys/products')
+M('C12', 'delay-products-not-forwarded', T, "delay_dict = {'type':delay_type, 'reactants':delay_reactants, \n                            'products':delay_products, 'parameters':delay_param_dict}",
+  "delay_dict = {'type':delay_type, 'reactants':delay_reactants, \n                            'products':delay_reactants, 'parameters':delay_param_dict}", 'fire', 'R12.3-forwarding/generate_sbml_model')
+M('C12', 'frequency-dropped-by-writer', T, "add_rule(model, rule_id, rule_type, rule_variable, rule_formula, rule_frequency)", "add_rule(model, rule_id, rule_type, rule_variable, rule_formula, 'repeated')", 'fire', 'R12.3-forwarding/generate_sbml_model')
+M('C12', 'stochastic-flag-dropped', T, "propensity_param_dict, stochastic = stochastic_model,", "propensity_param_dict, stochastic = False,", 'fire', 'R12.3-forwarding/generate_sbml_model')
+M('C12', 'species-rebuild-removed', T, "        if 'species' not in propensity_param_dict and propensity_type == \"massaction\":", "        if False:", 'fire', 'R12.1-propensity-keys/massaction')
+M('C12', 'separator-changed', SB, 'propensity_annotation_string += " "+k + "=" + str(propensity_annotation_dict[k])', 'propensity_annotation_string += " "+k + ":" + str(propensity_annotation_dict[k])', 'fire', 'R12.1-separators/propensity')
+M('C12', 'timestamp-in-export', SB, "    model.setId('bioscrape_generated_model_' + str(np.random.randint(1e6)))", "    model.setId('bioscrape_generated_model_' + str(np.random.randint(1e6)))\n    model.setName(str(time.time()))", 'fire', 'R12.4')
+M('C12', 'dummy-param-value-lost', T, "                self.set_parameter(dummy_var, val)\n", "", 'fire', 'R12.3-forwarding/dummy-parameters')
+M('C12', 'additive-rule-unwritable', SB, "    if rule_type == 'assignment' or rule_type == 'additive':", "    if rule_type == 'assignment':", 'fire', 'R12.2-exhaustive/rule/additive')
